@@ -125,6 +125,11 @@ class LoopEio(engineio.Client):
         self.current_transport = 'polling'
         self.state = 'connected'
         eio_base.connected_clients.append(self)
+        # the scripted answers of the peer are played inside this call (see the module docstring); in reality
+        # they arrive through the read loop, i.e. when the loop tasks exist: a handler that runs because of
+        # them may call disconnect(), which joins the read loop
+        self.write_loop_task = _Task()
+        self.read_loop_task = _Task()
         try:
             self._trigger_event('connect', run_async=False, reraise=True)
         except Exception as exc:
@@ -164,6 +169,8 @@ class AsyncLoopEio(engineio.AsyncClient):
         self.current_transport = 'polling'
         self.state = 'connected'
         eio_base.connected_clients.append(self)
+        self.write_loop_task = _ATask()
+        self.read_loop_task = _ATask()
         try:
             await self._trigger_event('connect', run_async=False)
         except Exception as exc:
@@ -247,6 +254,7 @@ class ClientWorld:
         self.reenter = None           # frame to deliver again from inside the next callback that runs
         self.reentered = False
         self.n_suspended = 0          # handlers / callbacks that were really suspended inside a burst
+        self.act_used = {}            # active handlers: API calls made so far, per handler
         VClient, VAsyncClient = _mk_client_classes()
         opts.setdefault('reconnection', False)
         opts.setdefault('handle_sigint', False)
@@ -296,8 +304,83 @@ class ClientWorld:
     def _record(self, kind, nskey, evkey, args):
         self._rec(['invoke', kind, nskey, evkey, list(args)])
 
-    def _mk_handler(self, kind, nskey, h, bound=False):
+    # ---- active handlers (C14 parity): a handler that looks at the client and uses its API from INSIDE
+    # act = dict(api=None|'emit'|'send'|'disconnect', target='own'|<namespace>, reraise=bool, max=int)
+    def _act_observe(self, act, ns):
+        s = self.sio
+        tgt = ns if act['target'] == 'own' else act['target']
+        self._rec(['act.sees', bool(s.connected), sorted([k, v] for k, v in s.namespaces.items()),
+                   tgt, s.get_sid(tgt), ns, s.get_sid(ns), s.sid])
+        return tgt
+
+    def _act_budget(self, act, key):
+        if act.get('api') is None:
+            return False
+        n = self.act_used.get(key, 0)
+        if n >= act.get('max', 2):
+            return False
+        self.act_used[key] = n + 1
+        return True
+
+    def _act_call(self, act, ns, tgt, obj):
+        """the scripted API call; class-based handlers go through their namespace object's helpers"""
+        api = act['api']
+        via = obj if obj is not None else self.sio
+        nsarg = tgt if (obj is None or tgt != ns) else None       # a namespace object defaults to its own
+        if api == 'emit':
+            return via.emit('from handler', {'in': ns}, namespace=nsarg)
+        if api == 'send':
+            return via.send('from handler ' + ns, namespace=nsarg)
+        if api == 'disconnect':
+            return via.disconnect()
+        raise ValueError(act)
+
+    def _act_sync(self, act, key, ns, obj):
+        tgt = self._act_observe(act, ns)
+        if self.is_async or not self._act_budget(act, key):
+            return                      # a plain function on the asyncio client cannot await the API
+        try:
+            r = self._act_call(act, ns, tgt, obj)
+            self._rec(['act.api', act['api'], tgt, 'ret', repr(r)])
+        except Exception as ex:   # noqa
+            self._rec(['act.api', act['api'], tgt, 'exc', type(ex).__name__])
+            if act.get('reraise'):
+                raise
+        self._act_observe(act, ns)
+
+    async def _act_async(self, act, key, ns, obj):
+        tgt = self._act_observe(act, ns)
+        if not self._act_budget(act, key):
+            return
+        try:
+            r = await self._act_call(act, ns, tgt, obj)
+            self._rec(['act.api', act['api'], tgt, 'ret', repr(r)])
+        except Exception as ex:   # noqa
+            self._rec(['act.api', act['api'], tgt, 'exc', type(ex).__name__])
+            if act.get('reraise'):
+                raise
+        self._act_observe(act, ns)
+
+    def _mk_active(self, kind, nskey, h, obj):
+        ev, ret, act = h['ev'], h['ret'], h['act']
+        world = self
+        key = (kind, nskey, ev)
+        if self.is_async and (h.get('coro', False) or act.get('api') is not None):
+            async def f(*args):
+                world._record(kind, nskey, ev, args)
+                await world._act_async(act, key, nskey, obj)
+                return ret_value(ret, args)
+        else:
+            def f(*args):
+                world._record(kind, nskey, ev, args)
+                world._act_sync(act, key, nskey, obj)
+                return ret_value(ret, args)
+        return f
+
+    def _mk_handler(self, kind, nskey, h, bound=False, obj=None):
         """A handler with the real arity: legacy disconnect handlers do not take the reason."""
+        if h.get('act') is not None:
+            return self._mk_active(kind, nskey, h, obj)
         ev, ret, coro, legacy = h['ev'], h['ret'], h.get('coro', False), h.get('legacy', False)
         world = self
 
@@ -343,7 +426,7 @@ class ClientWorld:
             base = socketio.AsyncClientNamespace if self.is_async else socketio.ClientNamespace
             obj = type('VNamespace', (base,), {})(c['ns'])
             for m in c['methods']:
-                f = self._mk_handler('cls', c['ns'], m)
+                f = self._mk_handler('cls', c['ns'], m, obj=obj)
                 setattr(obj, 'on_' + m['ev'], f)
             self.sio.register_namespace(obj)
 
